@@ -73,6 +73,31 @@ CHECKS["C14"] = (
     "DESIGN.md 7/C14",
 )
 
+CHECKS["C05"] = (
+    "Coq theorems on the lexer state machine (number scanning/splitting for all lengths) and on the literal lowering text, value theorem under two named hypotheses about sympy + lexer/transpiler correspondence in Coq + value oracle against fractions.Fraction",
+    "Machine-checked for digit strings of every length: a literal lexes as exactly one NUMBER token (leading 0 stands alone, a second point starts a new number), its text reaches sympy unchanged (Rational for decimals, nsimplify for integers), and GIVEN exact conversion by sympy the pushed value is digits/10^k. The two conversion hypotheses are measured on every run (all integers to 20000 / ~4*10^5 and sampled to 10^60, random decimals up to 25+18 digits).",
+    "Trusted: coqc kernel; sympy.Rational(str) and sympy.nsimplify(str) are outside the model (hypotheses of C05_value_*), the oracle measures them; known finding: nsimplify returns a nearby algebraic number for some integers (1164, ...), which cannot be repaired without editing the pinned test.",
+    "DESIGN.md 7/C05",
+)
+CHECKS["C06"] = (
+    "Coq induction over strings on models of quotify, the lexer string mode, the transpiler's re-escaping and Python's double-quoted literal decoding + correspondence in Coq (py_dq_decode vs ast.literal_eval) + end-to-end oracle",
+    "Machine-checked for every string of quotable characters (in particular every code-page string, any length): tokenise(quotify s) is one STRING token whose re-escaped text decodes to s, the decoder never meets an escape outside \\\\ \\\" \\n; with compression on, printable-ASCII strings pass through dictionary decompression unchanged for any dictionary; a back-quoted literal pushes its contents in any code context.",
+    "Trusted: coqc kernel; Python's decoding of a double-quoted literal restricted to raw characters and the three escapes (checked against ast.literal_eval); model = elements.quotify / lexer / transpile by correspondence; carriage return (not in the code page) is outside.",
+    "DESIGN.md 7/C06",
+)
+CHECKS["C15"] = (
+    "Coq theorems on positional codecs for unbounded n and lengths (digits and duplicate-free alphabets both directions, to_base with the float-derived exponent as a parameter incl. the exact failure condition, lexer delimiter lemmas, number/string compression, dictionary DP parametric in the dictionary) + correspondence in Coq + end-to-end oracle",
+    "Machine-checked: from/to digits and alphabets are mutually inverse with digits inside the base; compress_num/compress_str text never contains its delimiter so the lexer returns exactly the payload and decompression returns the value (n>=1; non-empty [a-z ] strings not starting with a space); optimal_compress output decompresses to s and is no longer than the plain literal for any sound dictionary; to_base round-trips iff b^(e+1) > n. PARTIAL on to_base: the float log that yields e is outside the model and measured (no under-estimate on any sample).",
+    "Trusted: coqc kernel; translator (alphabets); math.log / nsimplify exponent is a hypothesis measured per run; dictionary lookup soundness enumerated per run; model = implementation by correspondence (11 functions). Known finding: øc on the empty string.",
+    "DESIGN.md 7/C15",
+)
+CHECKS["C16"] = (
+    "Coq theorems (88 laws for all lists by induction: Sorted/Permutation, NoDup, folds, index laws, enumeration cardinalities and membership) about reference definitions mirroring the builtins' output order + correspondence in Coq + independent itertools oracle",
+    "Machine-checked for every list: the reference definitions of 33 list builtins satisfy their defining laws (sort, reverse, uniquify, flatten, sum/product/max/min, cumulative sums, deltas, zip, transpose, interleave/uninterleave, wrap, prefixes/suffixes, sublists, powerset, permutations, cartesian product incl. the implementation's anti-diagonal order, count/contains/find, group consecutive, counts, grade up/down, head/tail). The Python builtins are tied to the definitions by exhaustive comparison in Coq (all integer lists <= 3 / <= 5 over -2..3) and ~40 independent executable laws.",
+    "Trusted: coqc kernel; agreement of the Python functions with the reference definitions is tested, not proved. Known findings: product([]) = 0, permutations([]) = [''].",
+    "DESIGN.md 7/C16",
+)
+
 NOT_YET = {}
 
 def main():
